@@ -341,6 +341,13 @@ class Program:
                     cg[b.short].add(cv.short)
                 else:
                     foreign[b.short].add(tgt)
+                    # a trait method called on a generic parameter (`<T as Trait>::m`) stays unresolved in generic MIR:
+                    # class-hierarchy edges to every implementation of that method in this crate
+                    m = _GENERIC_SELF.match(cv.inst or "")
+                    if m:
+                        for d in self.trait_impl_items().get((norm(m.group(2)), tgt.split("::")[-1]), ()):
+                            if d in self.by_short:
+                                cg[b.short].add(d)
             # closures created here
             for blk in b.blocks:
                 for st in blk["stmts"]:
@@ -348,6 +355,20 @@ class Program:
                         cg[b.short].add(norm(st["r"]["closure"]))
         self._cg = (cg, foreign)
         return self._cg
+
+    def trait_impl_items(self):
+        """(trait path, method name) -> [impl item shorts] for the impls in this crate"""
+        if getattr(self, "_tii", None) is None:
+            out = defaultdict(list)
+            for im in self.impls:
+                tr = im.get("trait")
+                if not tr:
+                    continue
+                for it in im.get("items", []):
+                    if it.get("kind") in ("Fn", "AssocFn"):
+                        out[(norm(tr), it["name"])].append(norm(it["def"]))
+            self._tii = out
+        return self._tii
 
     def reachable(self, entries):
         cg, _ = self.callgraph()
@@ -362,6 +383,9 @@ class Program:
                 if y not in seen:
                     st.append(y)
         return seen
+
+
+_GENERIC_SELF = re.compile(r"^<([A-Z][A-Za-z0-9_]*) as ([^>]+?)(<.*)?>::")
 
 
 class AnchorMissing(Exception):
